@@ -182,7 +182,7 @@ def op_branches(fnode, opname):
     return out
 
 
-def check_add_linear(R, prog):
+def _shape_check_add_linear(R, prog):
     fi = prog.func(LIN, "CNFLinear.add_linear")
     cfg = CFG(fi.node)
     pl, pop, pc = fi.params[1:4]
@@ -341,7 +341,7 @@ def describe_rows(rows):
 
 
 # ------------------------------------------------------------------ normalize_opb
-def check_normalize(R, prog):
+def _shape_check_normalize(R, prog):
     fi = prog.func(OPB, "normalize_opb")
     fnode = fi.node
     env = {}
@@ -535,7 +535,9 @@ def check_parity(R, prog):
         env = local_env(fi.node)
         verdict, why = parity_semantics(fi, pl, pc)
         if verdict:
-            R.ok("PARITY-SIGN", "%s.add_parity keeps the sign vectors with product +1 iff constant == 1" % cls, fi.key)
+            R.ok("PARITY-SIGN", "%s.add_parity adds exactly the clauses of the other parity (folded for 0..3 literals, constants 0 and 1)" % cls, fi.key)
+        elif verdict is None:
+            R.unknown("PARITY-SIGN", "%s.add_parity" % cls, fi.key, why)
         else:
             R.bad(F("PARITY-SIGN", fi, "%s.add_parity" % cls, why))
         # core of the body (without the check block) for the clone comparison
@@ -551,87 +553,37 @@ def check_parity(R, prog):
 
 
 def parity_semantics(fi, pl, pc):
-    """the loop must enumerate product([1,-1], repeat=len(lits)), keep vectors whose product equals D(constant) with
-    D(1)=+1, D(0)=-1, and emit [lit*sign ...] -- decided on the extracted expressions"""
-    loop = None
-    for s in fi.node.body:
-        if isinstance(s, ast.For) and isinstance(s.iter, ast.Call) and call_name(s.iter) == "product":
-            loop = s
-    if loop is None:
-        return False, "no loop over itertools.product of sign vectors found"
-    it = loop.iter
-    rep = [k.value for k in it.keywords if k.arg == "repeat"]
-    if not (len(it.args) == 1 and isinstance(it.args[0], (ast.List, ast.Tuple)) and
-            sorted(const(e) for e in it.args[0].elts) == [-1, 1] and rep and src(rep[0]) == "len(%s)" % pl):
-        return False, "sign vectors must range over product([1,-1], repeat=len(%s)); found %s" % (pl, src(it))
-    sv = src(loop.target)
-    env = local_env(fi.node)
-    # D(constant)
-    dname = None
-    guard = None
-    for s in loop.body:
-        if isinstance(s, ast.If):
-            guard = s
-    if guard is None or not isinstance(guard.test, ast.Compare) or len(guard.test.ops) != 1:
-        return False, "no guard selecting the sign vectors"
-    l, o, r = cmp_ops(guard.test)[0]
-    loc = {x.targets[0].id: x.value for x in loop.body if isinstance(x, ast.Assign) and isinstance(x.targets[0], ast.Name)}
-
-    def is_product(e):
-        if isinstance(e, ast.Name) and e.id in loc:
-            e = loc[e.id]
-        if isinstance(e, ast.Call):
-            n = call_name(e) or ""
-            if n == "reduce" and len(e.args) >= 2 and src(e.args[0]) in ("mul", "operator.mul") and src(e.args[1]) == sv:
-                return len(e.args) == 2 or is_const(e.args[2], 1)
-            if n in ("prod", "math.prod") and len(e.args) == 1 and src(e.args[0]) == sv:
-                return True
-        return False
-
-    def dval(e, c):
-        if isinstance(e, ast.Name) and e.id in env:
-            e = env[e.id]
-        if isinstance(e, ast.IfExp):
-            t = e.test
-            if isinstance(t, ast.Compare) and len(t.ops) == 1 and src(t.left) == pc and isinstance(const(t.comparators[0]), int):
-                k = const(t.comparators[0])
-                truth = (c == k) if isinstance(t.ops[0], ast.Eq) else ((c != k) if isinstance(t.ops[0], ast.NotEq) else None)
-                if truth is None:
-                    return None
-                return const(e.body if truth else e.orelse)
-        return None
-    if is_product(l):
-        d = r
-    elif is_product(r):
-        d = l
-    else:
-        return False, "the guard does not compare the product of the sign vector (reduce(mul, signs, 1))"
-    d1, d0 = dval(d, 1), dval(d, 0)
-    if d1 is None or d0 is None:
-        return False, "cannot fold the desired sign as a function of the constant"
-    keep_eq = isinstance(o, ast.Eq)
-    if not keep_eq and not isinstance(o, ast.NotEq):
-        return False, "unexpected comparison in the guard"
-    want1, want0 = (1, -1) if keep_eq else (-1, 1)
-    if (d1, d0) != (want1, want0):
-        return False, ("constant 1 keeps sign vectors with product %+d and constant 0 those with product %+d; an odd parity "
-                       "constraint x1+..+xk=1 is the set of clauses with an even number of negations (product +1)" % (
-                           d1 if keep_eq else -d1, d0 if keep_eq else -d0))
-    calls = [c for x in guard.body for c in ast.walk(x) if isinstance(c, ast.Call) and call_name(c) == "self.add_clause"]
-    if len(calls) != 1 or len(guard.body) != 1 or guard.orelse:
-        return False, "exactly one clause must be added per kept sign vector"
-    a = calls[0].args[0]
-    ok = isinstance(a, ast.ListComp) and isinstance(a.elt, ast.BinOp) and isinstance(a.elt.op, ast.Mult) and \
-        isinstance(a.generators[0].iter, ast.Call) and call_name(a.generators[0].iter) == "zip" and \
-        [src(x) for x in a.generators[0].iter.args] in ([pl, sv], [sv, pl]) and not a.generators[0].ifs and \
-        {src(a.elt.left), src(a.elt.right)} == {src(e) for e in a.generators[0].target.elts}
-    if not ok:
-        return False, "the emitted clause must be [lit*sign for lit, sign in zip(%s, %s)]; found %s" % (pl, sv, src(a))
+    """what add_parity adds, decided by folding its body (sa/fold.py) for every list of 0..3 literals and both constants: the clauses
+    must be exactly { [s_i * l_i] : s in {+1,-1}^n, #(-1 in s) % 2 != constant } -- a clause with signs s forbids the assignment that
+    sets exactly the variables with s_i = -1, and x_1 + .. + x_n = constant forbids the assignments of the other parity.  How the
+    loop selects the sign vectors (reduce(mul, ..), .count(-1), an early continue, a local alias of len(lits)) does not matter."""
+    import itertools
+    from ..fold import Folder
+    body = [b for b in fi.node.body if not (isinstance(b, ast.Expr) and isinstance(b.value, ast.Constant))]
+    checked = 0
+    for n in range(0, 4):
+        lits = list(range(2, 2 + n))            # distinct positive literals 2, 3, ..
+        for c in (0, 1):
+            f = Folder(env={pl: list(lits), pc: c, "check": False, "self": None}, sinks=("add_clause", "_add_clause", "add_constraint"))
+            try:
+                f.run(body)
+            except Unknown as e:
+                return None, "cannot fold the body of add_parity: %s" % e
+            except Exception as e:          # Continue / Return escaping: treated as end of the method
+                if type(e).__name__ not in ("_Return",):
+                    return None, "cannot fold the body of add_parity: %s" % type(e).__name__
+            got = sorted(tuple(a[0]) for name, a, kw in f.effects if a)
+            want = sorted(tuple(s * l for s, l in zip(sv, lits)) for sv in itertools.product([1, -1], repeat=n)
+                          if sum(1 for x in sv if x == -1) % 2 != c)
+            checked += 1
+            if got != want:
+                return False, ("for literals %s and constant %d the method adds %s; the parity constraint x1+..+xn = %d (mod 2) is the set of "
+                               "clauses whose number of negated literals has the other parity: %s" % (lits, c, [list(g) for g in got][:6], c, [list(w) for w in want][:6]))
     return True, ""
 
 
 # ------------------------------------------------------------------ != blasting
-def check_neq_blast(R, prog):
+def _shape_check_neq_blast(R, prog):
     sites = []
     fi = prog.func(LIN, "CNFLinear.add_linear")
     for lit, node, body in op_branches(fi.node, fi.params[2]):
@@ -978,3 +930,132 @@ def check_forbid_bits(R, prog):
             R.bad(F("FORBID-BITS", fwd, "BinaryMappingVariables index->id", "expected id_offset + i*bitlength - b, found %s" % p))
     except Exception:
         R.unknown("FORBID-BITS", "index->id polynomial", fwd.key, "not polynomial")
+
+
+# ------------------------------------------------------------------ semantics by folding (independent of how the code is written)
+def _truth(clauses, assignment):
+    """is the CNF (list of integer clauses) true under assignment {var: bool}?"""
+    return all(any((l > 0) == assignment[abs(l)] for l in c) for c in clauses)
+
+
+def semantic_add_linear(prog):
+    """fold CNFLinear.add_linear (with its recursive reductions) for every operator, 0..3 literals of mixed sign and every constant in
+    -1..n+1, and compare the clause set with the constraint by truth table.  -> (True | False | None, detail)"""
+    import itertools
+    from ..fold import Folder, Raised
+    ci = prog.cls(LIN, "CNFLinear")
+    fi = ci.methods["add_linear"]
+    methods = {k: v.node for k, v in ci.methods.items()}
+    base = prog.cls("cnfgen.formula.basecnf", "BaseCNF")
+    n_checked = 0
+    for n in range(0, 4):
+        for signs in itertools.product([1, -1], repeat=n):
+            lits = [s_ * (i + 1) for i, s_ in enumerate(signs)]
+            for op in ("<=", ">=", "<", ">", "==", "!="):
+                for c in range(-1, n + 2):
+                    f = Folder(env={}, sinks=("add_clause",), methods=methods)
+                    try:
+                        f.call_function(fi.node, [None, list(lits), op, c], {"check": False})
+                    except Unknown as e:
+                        return None, "cannot fold add_linear(%s, %r, %d): %s" % (lits, op, c, e)
+                    except Raised as e:
+                        return False, "add_linear(%s, %r, %d) raises %s" % (lits, op, c, e.cls)
+                    clauses = [list(a[0]) for name, a, kw in f.effects if a]
+                    for bits in itertools.product([False, True], repeat=n):
+                        asg = {i + 1: b for i, b in enumerate(bits)}
+                        tot = sum(1 for l in lits if (l > 0) == asg[abs(l)])
+                        want = {"<=": tot <= c, ">=": tot >= c, "<": tot < c, ">": tot > c, "==": tot == c, "!=": tot != c}[op]
+                        if _truth(clauses, asg) != want:
+                            return False, ("add_linear(%s, %r, %d) adds %s: under the assignment %s the sum is %d, the constraint is %s but the "
+                                           "clauses are %s" % (lits, op, c, clauses, asg, tot, want, _truth(clauses, asg)))
+                    n_checked += 1
+    return True, "%d (literals, operator, constant) instances folded and compared by truth table" % n_checked
+
+
+def semantic_normalize(prog):
+    """fold normalize_opb for small constraints (up to 2 terms, coefficients -2..2 without 0, both literal signs, six operators,
+    degrees -3..4): the result must have positive coefficients, operator >= or ==, and the same models."""
+    import itertools
+    from ..fold import Folder, Raised
+    fi = prog.func(OPB, "normalize_opb")
+    n_checked = 0
+
+    def holds(terms, op, k, asg):
+        tot = sum(c for c, l in terms if (l > 0) == asg[abs(l)])
+        return {"<=": tot <= k, ">=": tot >= k, "<": tot < k, ">": tot > k, "==": tot == k, "!=": tot != k}[op]
+    for nt in range(0, 3):
+        for coefs in itertools.product([-2, -1, 1, 2], repeat=nt):
+            for sg in itertools.product([1, -1], repeat=nt):
+                terms = [(c, s_ * (i + 1)) for i, (c, s_) in enumerate(zip(coefs, sg))]
+                for op in ("<=", ">=", "<", ">", "=="):
+                    for k in range(-3, 5):
+                        f = Folder()
+                        try:
+                            out = f.call_function(fi.node, [list(terms) + [op, k]], {})
+                        except Unknown as e:
+                            return None, "cannot fold normalize_opb(%s): %s" % (terms + [op, k], e)
+                        except Raised as e:
+                            return False, "normalize_opb(%s) raises %s" % (terms + [op, k], e.cls)
+                        if not isinstance(out, list) or len(out) < 2:
+                            return False, "normalize_opb(%s) returns %r" % (terms + [op, k], out)
+                        oterms, oop, ok_ = [tuple(t) for t in out[:-2]], out[-2], out[-1]
+                        if oop not in (">=", "==") or any(c <= 0 for c, l in oterms):
+                            return False, "normalize_opb(%s) = %s is not normalised (positive coefficients, >= or ==)" % (terms + [op, k], out)
+                        for bits in itertools.product([False, True], repeat=nt):
+                            asg = {i + 1: b for i, b in enumerate(bits)}
+                            if holds(terms, op, k, asg) != holds(oterms, oop, ok_, asg):
+                                return False, ("normalize_opb(%s) = %s: under %s the original constraint is %s and the normalised one %s"
+                                               % (terms + [op, k], out, asg, holds(terms, op, k, asg), holds(oterms, oop, ok_, asg)))
+                        n_checked += 1
+    return True, "%d small constraints folded and compared by truth table" % n_checked
+
+
+_SEM_CACHE = {}
+
+
+def _with_semantics(R, prog, shape_fn, sem_fn, what, fkey):
+    """run the shape rule; when the bounded semantic comparison (folding) succeeds, a shape the rule does not recognise is an
+    undecided instance, not a violation -- the code is a different spelling of a method whose meaning was just confirmed"""
+    T = Result(P, "")
+    shape_fn(T, prog)
+    key = (id(prog), sem_fn.__name__)
+    if key not in _SEM_CACHE:
+        try:
+            _SEM_CACHE[key] = sem_fn(prog)
+        except AnalysisError:
+            raise
+        except Exception as e:
+            _SEM_CACHE[key] = (None, "folding failed: %s" % type(e).__name__)
+    verdict, detail = _SEM_CACHE[key]
+    for o in T.obligations:
+        if o["status"] == "discharged":
+            R.ok(o["rule"], o["instance"], o["where"], nontrivial=o["nontrivial"])
+    for u in T.unproven:
+        R.unknown(u["rule"], u["instance"], u["where"], u["why"])
+    for fl in T.floors:
+        R.floors.append(fl)
+    if verdict is True:
+        R.ok("LINEAR-SEMANTICS", "%s: %s" % (what, detail), fkey)
+        for f in T.findings:
+            R.unknown(f.rule, f.construct, "%s:%s %s" % (f.file, f.line, f.function),
+                      "shape not recognised (%s); the method's meaning was confirmed by folding" % f.message[:120])
+    else:
+        if verdict is False:
+            fi = prog.func(*fkey) if isinstance(fkey, tuple) else None
+            R.bad(F("LINEAR-SEMANTICS", fi, what, detail))
+        else:
+            R.unknown("LINEAR-SEMANTICS", what, str(fkey), detail)
+        for f in T.findings:
+            R.bad(f)
+
+
+def check_add_linear(R, prog):
+    _with_semantics(R, prog, _shape_check_add_linear, semantic_add_linear, "CNFLinear.add_linear means `sum op constant` for all six operators", (LIN, "CNFLinear.add_linear"))
+
+
+def check_neq_blast(R, prog):
+    _with_semantics(R, prog, _shape_check_neq_blast, semantic_add_linear, "add_linear('!=') forbids exactly the assignments with `constant` true literals", (LIN, "CNFLinear.add_linear"))
+
+
+def check_normalize(R, prog):
+    _with_semantics(R, prog, _shape_check_normalize, semantic_normalize, "normalize_opb keeps the models and yields positive coefficients with >= / ==", (OPB, "normalize_opb"))
